@@ -11,24 +11,39 @@
 From Verif Require Import Lib.Base C20.Vocab.
 Open Scope N_scope.
 
-(** The five settings as resolved by an exporter. *)
+(** The settings as resolved by an exporter: the five of the property, plus the transport
+    security the endpoint sources imply and a user-supplied gRPC connection. *)
 Record cfg := {
   c_host : bytes;      (* endpoint / dial target *)
   c_path : bytes;      (* URL path on the wire (HTTP) *)
   c_hdrs : hmap;
   c_gzip : bool;
-  c_tmo : Z }.         (* nanoseconds; <= 0: no timeout *)
+  c_tmo : Z;           (* nanoseconds; <= 0: no timeout *)
+  c_insec : bool;      (* plain text (true) or TLS (false) *)
+  c_conn : option bytes }.   (* WithGRPCConn: target of the user's connection *)
 
 Definition set_host (c : cfg) (h : bytes) : cfg :=
-  {| c_host := h; c_path := c_path c; c_hdrs := c_hdrs c; c_gzip := c_gzip c; c_tmo := c_tmo c |}.
+  {| c_host := h; c_path := c_path c; c_hdrs := c_hdrs c; c_gzip := c_gzip c; c_tmo := c_tmo c; c_insec := c_insec c; c_conn := c_conn c |}.
 Definition set_path (c : cfg) (p : bytes) : cfg :=
-  {| c_host := c_host c; c_path := p; c_hdrs := c_hdrs c; c_gzip := c_gzip c; c_tmo := c_tmo c |}.
+  {| c_host := c_host c; c_path := p; c_hdrs := c_hdrs c; c_gzip := c_gzip c; c_tmo := c_tmo c; c_insec := c_insec c; c_conn := c_conn c |}.
 Definition set_hdrs (c : cfg) (m : hmap) : cfg :=
-  {| c_host := c_host c; c_path := c_path c; c_hdrs := m; c_gzip := c_gzip c; c_tmo := c_tmo c |}.
+  {| c_host := c_host c; c_path := c_path c; c_hdrs := m; c_gzip := c_gzip c; c_tmo := c_tmo c; c_insec := c_insec c; c_conn := c_conn c |}.
 Definition set_gzip (c : cfg) (g : bool) : cfg :=
-  {| c_host := c_host c; c_path := c_path c; c_hdrs := c_hdrs c; c_gzip := g; c_tmo := c_tmo c |}.
+  {| c_host := c_host c; c_path := c_path c; c_hdrs := c_hdrs c; c_gzip := g; c_tmo := c_tmo c; c_insec := c_insec c; c_conn := c_conn c |}.
 Definition set_tmo (c : cfg) (t : Z) : cfg :=
-  {| c_host := c_host c; c_path := c_path c; c_hdrs := c_hdrs c; c_gzip := c_gzip c; c_tmo := t |}.
+  {| c_host := c_host c; c_path := c_path c; c_hdrs := c_hdrs c; c_gzip := c_gzip c; c_tmo := t; c_insec := c_insec c; c_conn := c_conn c |}.
+Definition set_insec (c : cfg) (i : bool) : cfg :=
+  {| c_host := c_host c; c_path := c_path c; c_hdrs := c_hdrs c; c_gzip := c_gzip c; c_tmo := c_tmo c; c_insec := i; c_conn := c_conn c |}.
+Definition set_conn (c : cfg) (t : bytes) : cfg :=
+  {| c_host := c_host c; c_path := c_path c; c_hdrs := c_hdrs c; c_gzip := c_gzip c; c_tmo := c_tmo c; c_insec := c_insec c; c_conn := Some t |}.
+
+(** A user-supplied connection decides where the data goes; the dial options (compression
+    among them) are not used. *)
+Definition use_conn (c : cfg) : cfg :=
+  match c_conn c with
+  | Some t => set_insec (set_gzip (set_host c t) false) true
+  | None => c
+  end.
 
 (** * Trace / metric family *)
 
@@ -49,13 +64,18 @@ Definition clean_path (p dflt : bytes) : bytes :=
 
 (** WithURL("ENDPOINT"): host, and for HTTP the signal path joined to the URL's path; for gRPC
     the target is path.Join(host, path). *)
+(** withEndpointScheme: "http" and "unix" mean plain text, everything else TLS. *)
+Definition scheme_insecure (u : url) : bool :=
+  bytes_eqb (u_scheme u) (str "http") || bytes_eqb (u_scheme u) (str "unix").
 Definition tm_gen_endpoint (pr : proto) (sig : bytes) (c : cfg) (u : url) : cfg :=
+  let c := set_insec c (scheme_insecure u) in
   match pr with
   | PHttp => set_path (set_host c (u_host u)) (path_join (u_path u) sig)
   | PGrpc => set_host c (path_join (u_host u) (u_path u))
   end.
 (** WithURL("<SIGNAL>_ENDPOINT"): host and the URL's path as it is ("/" when empty). *)
 Definition tm_spec_endpoint (pr : proto) (c : cfg) (u : url) : cfg :=
+  let c := set_insec c (scheme_insecure u) in
   match pr with
   | PHttp => set_path (set_host c (u_host u)) (if is_nil (u_path u) then [47] else u_path u)
   | PGrpc => set_host c (path_join (u_host u) (u_path u))
@@ -78,10 +98,16 @@ Definition tm_env_tmo (c : cfg) (v : bytes) : cfg :=
   | None => c
   end.
 
+(** WithBool("INSECURE"): any present value is applied; "true" (any case) means plain text. *)
+Definition tm_env_insec (c : cfg) (v : bytes) : cfg :=
+  match tm_getenv v with Some t => set_insec c (bytes_eqb (to_lower t) true_name) | None => c end.
+
 (** getOptionsFromEnv applied in order (generic, then signal-specific, per setting). *)
 Definition tm_apply_env (pr : proto) (sig : bytes) (e : env) (c : cfg) : cfg :=
   let c := tm_env_url (tm_gen_endpoint pr sig) c (gen_ep e) in
   let c := tm_env_url (tm_spec_endpoint pr) c (spec_ep e) in
+  let c := tm_env_insec c (gen_insec e) in
+  let c := tm_env_insec c (spec_insec e) in
   let c := tm_env_headers c (gen_hdr e) in
   let c := tm_env_headers c (spec_hdr e) in
   let c := tm_env_comp c (gen_comp e) in
@@ -94,7 +120,7 @@ Definition tm_apply_opt (c : cfg) (o : opt) : cfg :=
   | OEndpoint h => set_host c h
   | OEndpointURL s =>
       match parse_url s with
-      | Some u => set_path (set_host c (u_host u)) (u_path u)
+      | Some u => set_insec (set_path (set_host c (u_host u)) (u_path u)) (negb (bytes_eqb (u_scheme u) https_name))
       | None => c
       end
   | OURLPath p => set_path c p
@@ -102,17 +128,19 @@ Definition tm_apply_opt (c : cfg) (o : opt) : cfg :=
   | OCompression g => set_gzip c g
   | OCompressor n => set_gzip c (bytes_eqb n gzip_name)
   | OTimeout t => set_tmo c t
-  | OInsecure => c
+  | OInsecure => set_insec c true
+  | OGRPCConn t => set_conn c t
   end.
 
 Definition tm_default (pr : proto) (sig : bytes) : cfg :=
-  {| c_host := default_host pr; c_path := sig; c_hdrs := []; c_gzip := false; c_tmo := default_timeout_ns |}.
+  {| c_host := default_host pr; c_path := sig; c_hdrs := []; c_gzip := false; c_tmo := default_timeout_ns;
+     c_insec := false; c_conn := None |}.
 
 Definition tm_config (pr : proto) (sig : bytes) (opts : list opt) (e : env) : cfg :=
   let c := fold_left tm_apply_opt opts (tm_apply_env pr sig e (tm_default pr sig)) in
   match pr with
   | PHttp => set_path c (clean_path (c_path c) sig)
-  | PGrpc => c
+  | PGrpc => use_conn c
   end.
 
 (** * Log family *)
@@ -140,27 +168,43 @@ Definition log_dur (v : bytes) : option Z := option_map ms_to_ns (atoi v).
 (** settings filled by the user's options *)
 Record lset := {
   l_host : option bytes; l_path : option bytes; l_hdrs : option hmap;
-  l_gzip : option bool; l_tmo : option Z }.
-Definition lset0 : lset := {| l_host := None; l_path := None; l_hdrs := None; l_gzip := None; l_tmo := None |}.
+  l_gzip : option bool; l_tmo : option Z; l_insec : option bool; l_conn : option bytes }.
+Definition lset0 : lset :=
+  {| l_host := None; l_path := None; l_hdrs := None; l_gzip := None; l_tmo := None; l_insec := None; l_conn := None |}.
+Definition ls_host (s : lset) v := {| l_host := v; l_path := l_path s; l_hdrs := l_hdrs s; l_gzip := l_gzip s; l_tmo := l_tmo s; l_insec := l_insec s; l_conn := l_conn s |}.
+Definition ls_path (s : lset) v := {| l_host := l_host s; l_path := v; l_hdrs := l_hdrs s; l_gzip := l_gzip s; l_tmo := l_tmo s; l_insec := l_insec s; l_conn := l_conn s |}.
+Definition ls_hdrs (s : lset) v := {| l_host := l_host s; l_path := l_path s; l_hdrs := v; l_gzip := l_gzip s; l_tmo := l_tmo s; l_insec := l_insec s; l_conn := l_conn s |}.
+Definition ls_gzip (s : lset) v := {| l_host := l_host s; l_path := l_path s; l_hdrs := l_hdrs s; l_gzip := v; l_tmo := l_tmo s; l_insec := l_insec s; l_conn := l_conn s |}.
+Definition ls_tmo (s : lset) v := {| l_host := l_host s; l_path := l_path s; l_hdrs := l_hdrs s; l_gzip := l_gzip s; l_tmo := v; l_insec := l_insec s; l_conn := l_conn s |}.
+Definition ls_insec (s : lset) v := {| l_host := l_host s; l_path := l_path s; l_hdrs := l_hdrs s; l_gzip := l_gzip s; l_tmo := l_tmo s; l_insec := v; l_conn := l_conn s |}.
+Definition ls_conn (s : lset) v := {| l_host := l_host s; l_path := l_path s; l_hdrs := l_hdrs s; l_gzip := l_gzip s; l_tmo := l_tmo s; l_insec := l_insec s; l_conn := v |}.
+
+(** otlploggrpc insecureFromScheme: "https" -> TLS, any other non-empty scheme -> plain text, an
+    empty scheme leaves the setting alone. *)
+Definition insecure_from_scheme (prev : option bool) (scheme : bytes) : option bool :=
+  if bytes_eqb scheme https_name then Some false
+  else if is_nil scheme then prev else Some true.
 
 Definition log_apply_opt (pr : proto) (s : lset) (o : opt) : lset :=
   match o with
-  | OEndpoint h => {| l_host := Some h; l_path := l_path s; l_hdrs := l_hdrs s; l_gzip := l_gzip s; l_tmo := l_tmo s |}
+  | OEndpoint h => ls_host s (Some h)
   | OEndpointURL r =>
       match parse_url r with
-      | Some u => {| l_host := Some (u_host u);
-                     l_path := match pr with PHttp => Some (u_path u) | PGrpc => l_path s end;
-                     l_hdrs := l_hdrs s; l_gzip := l_gzip s; l_tmo := l_tmo s |}
+      | Some u =>
+          match pr with
+          | PHttp => ls_insec (ls_path (ls_host s (Some (u_host u))) (Some (u_path u)))
+                              (Some (negb (bytes_eqb (u_scheme u) https_name)))
+          | PGrpc => ls_insec (ls_host s (Some (u_host u))) (insecure_from_scheme (l_insec s) (u_scheme u))
+          end
       | None => s
       end
-  | OURLPath p => {| l_host := l_host s; l_path := Some p; l_hdrs := l_hdrs s; l_gzip := l_gzip s; l_tmo := l_tmo s |}
-  | OHeaders m => {| l_host := l_host s; l_path := l_path s; l_hdrs := Some m; l_gzip := l_gzip s; l_tmo := l_tmo s |}
-  | OCompression g => {| l_host := l_host s; l_path := l_path s; l_hdrs := l_hdrs s; l_gzip := Some g; l_tmo := l_tmo s |}
-  | OCompressor n =>
-      {| l_host := l_host s; l_path := l_path s; l_hdrs := l_hdrs s;
-         l_gzip := Some (match log_comp n with Some g => g | None => false end); l_tmo := l_tmo s |}
-  | OTimeout t => {| l_host := l_host s; l_path := l_path s; l_hdrs := l_hdrs s; l_gzip := l_gzip s; l_tmo := Some t |}
-  | OInsecure => s
+  | OURLPath p => ls_path s (Some p)
+  | OHeaders m => ls_hdrs s (Some m)
+  | OCompression g => ls_gzip s (Some g)
+  | OCompressor n => ls_gzip s (Some (match log_comp n with Some g => g | None => false end))
+  | OTimeout t => ls_tmo s (Some t)
+  | OInsecure => ls_insec s (Some true)
+  | OGRPCConn t => ls_conn s (Some t)
   end.
 
 Definition or_else {A} (a : option A) (b : option A) : option A := match a with Some _ => a | None => b end.
@@ -169,6 +213,24 @@ Definition or_dflt {A} (a : option A) (d : A) : A := match a with Some v => v | 
 (** url.URL{Path: p}.String() / http.NewRequest: the request path on the wire. *)
 Definition wire_path (p : bytes) : bytes :=
   match p with [] => [47] | c :: _ => if c =? 47 then p else 47 :: p end.
+
+(** otlploghttp convInsecure (scheme of the first parsable endpoint variable) *)
+Definition log_http_insec (v : bytes) : option bool :=
+  option_map (fun u => negb (bytes_eqb (u_scheme u) https_name)) (parse_url v).
+(** otlploggrpc loadInsecureFromEnvEndpoint: the first NON-EMPTY endpoint variable that parses
+    decides (and may decide nothing when its scheme is empty); then getEnv over the INSECURE
+    variables with a strict boolean. *)
+Definition log_grpc_insec_ep (spec gen : bytes) : option bool :=
+  match (if is_nil spec then None else parse_url spec) with
+  | Some u => insecure_from_scheme None (u_scheme u)
+  | None => match (if is_nil gen then None else parse_url gen) with
+            | Some u => insecure_from_scheme None (u_scheme u)
+            | None => None
+            end
+  end.
+Definition log_bool (v : bytes) : option bool :=
+  let t := to_lower v in
+  if bytes_eqb t true_name then Some true else if bytes_eqb t false_name then Some false else None.
 
 Definition log_config (pr : proto) (opts : list opt) (e : env) : cfg :=
   let s := fold_left (log_apply_opt pr) opts lset0 in
@@ -180,11 +242,20 @@ Definition log_config (pr : proto) (opts : list opt) (e : env) : cfg :=
             (or_else (log_getenv (fun v => option_map (fun u => if is_nil (u_path u) then [47] else u_path u) (parse_url v)) (spec_ep e) [])
                      (log_getenv (fun v => option_map (fun u => trim_right_slash (u_path u) ++ sig) (parse_url v)) (gen_ep e) [])))
             sig in
-  {| c_host := host;
-     c_path := match pr with PHttp => wire_path path | PGrpc => sig end;
-     c_hdrs := or_dflt (or_else (l_hdrs s) (log_getenv log_headers (spec_hdr e) (gen_hdr e))) [];
-     c_gzip := or_dflt (or_else (l_gzip s) (log_getenv log_comp (spec_comp e) (gen_comp e))) false;
-     c_tmo := or_dflt (or_else (l_tmo s) (log_getenv log_dur (spec_tmo e) (gen_tmo e))) default_timeout_ns |}.
+  let insec :=
+    match pr with
+    | PHttp => or_dflt (or_else (l_insec s) (log_getenv log_http_insec (spec_ep e) (gen_ep e))) false
+    | PGrpc => or_dflt (or_else (or_else (l_insec s) (log_grpc_insec_ep (spec_ep e) (gen_ep e)))
+                                (log_getenv log_bool (spec_insec e) (gen_insec e))) false
+    end in
+  let c :=
+    {| c_host := host;
+       c_path := match pr with PHttp => wire_path path | PGrpc => sig end;
+       c_hdrs := or_dflt (or_else (l_hdrs s) (log_getenv log_headers (spec_hdr e) (gen_hdr e))) [];
+       c_gzip := or_dflt (or_else (l_gzip s) (log_getenv log_comp (spec_comp e) (gen_comp e))) false;
+       c_tmo := or_dflt (or_else (l_tmo s) (log_getenv log_dur (spec_tmo e) (gen_tmo e))) default_timeout_ns;
+       c_insec := insec; c_conn := l_conn s |} in
+  match pr with PHttp => c | PGrpc => use_conn c end.
 
 (** * All six exporters *)
 Definition exporter_config (f : family) (pr : proto) (opts : list opt) (e : env) : cfg :=
